@@ -36,7 +36,83 @@ type sortKey struct {
 	ref  func(k nodeKind) int
 }
 
-func c19Seq(maxLen int, firstKey int) func(r *vp.InstResult) {
+// sliceFamily enumerates input slices as index lists over the 8 node kinds.
+type sliceFamily struct {
+	maxKeys int // key sequences of length 1..maxKeys
+	each    func(yield func(idx []int))
+	onlySeq []int // if set: this key sequence only
+}
+
+// allSlices: every slice of length 0..maxLen over all kinds.
+func allSlices(maxLen, kinds int) func(yield func(idx []int)) {
+	return func(yield func(idx []int)) {
+		for l := 0; l <= maxLen; l++ {
+			idx := make([]int, l)
+			for {
+				yield(idx)
+				p := l - 1
+				for p >= 0 {
+					idx[p]++
+					if idx[p] < kinds {
+						break
+					}
+					idx[p] = 0
+					p--
+				}
+				if p < 0 {
+					break
+				}
+			}
+		}
+	}
+}
+
+// overAlphabet: every slice of exactly length l over the given kinds.
+func overAlphabet(l int, alphabet []int, first ...int) func(yield func(idx []int)) {
+	return func(yield func(idx []int)) {
+		pos := make([]int, l)
+		copy(pos, first)
+		idx := make([]int, l)
+		for {
+			for i, p := range pos {
+				idx[i] = alphabet[p]
+			}
+			yield(idx)
+			p := l - 1
+			for p >= len(first) {
+				pos[p]++
+				if pos[p] < len(alphabet) {
+					break
+				}
+				pos[p] = 0
+				p--
+			}
+			if p < len(first) {
+				break
+			}
+		}
+	}
+}
+
+// periodic: every pattern of length 1..maxPeriod over all kinds, repeated to each of the given lengths.
+func periodic(maxPeriod, kinds int, lengths []int) func(yield func(idx []int)) {
+	return func(yield func(idx []int)) {
+		allSlices(maxPeriod, kinds)(func(pat []int) {
+			if len(pat) == 0 {
+				return
+			}
+			for _, l := range lengths {
+				idx := make([]int, l)
+				for i := range idx {
+					idx[i] = pat[i%len(pat)]
+				}
+				yield(idx)
+			}
+		})
+	}
+}
+
+func c19Seq(fam sliceFamily, firstKey int) func(r *vp.InstResult) {
 	return func(r *vp.InstResult) {
 		cases, distinctIn := 0, 0
 		seqRun(r, func() {
@@ -111,7 +187,7 @@ func c19Seq(maxLen int, firstKey int) func(r *vp.InstResult) {
 			}
 			// (2) every slice x every key sequence: permutation + lexicographic order
 			var keySeqs [][]int
-			for l := 1; l <= 3; l++ {
+			for l := 1; l <= fam.maxKeys; l++ {
 				idx := make([]int, l)
 				for {
 					if idx[0] == firstKey {
@@ -131,15 +207,23 @@ func c19Seq(maxLen int, firstKey int) func(r *vp.InstResult) {
 					}
 				}
 			}
+			if fam.onlySeq != nil {
+				keySeqs = [][]int{fam.onlySeq}
+			}
 			outcomes := map[string]bool{}
+			each := fam.each
 			if firstKey < 0 {
-				maxLen = -1
+				each = func(func([]int)) {}
 				r.Outcomes["axioms"] = 1
 			}
-			for l := 0; l <= maxLen; l++ {
-				idx := make([]int, l)
-				for {
+			each(func(idx []int) {
+				{
+					l := len(idx)
 					distinctIn++
+					if distinctIn&0xfff == 0 && expired() {
+						r.Complete = false
+						return
+					}
 					for _, ks := range keySeqs {
 						cases++
 						in := make([]*gorums.RawNode, l)
@@ -182,22 +266,12 @@ func c19Seq(maxLen int, firstKey int) func(r *vp.InstResult) {
 						}
 						if l <= 2 {
 							outcomes[fmt.Sprint(names, kindsOf(sorted, kindOf))] = true
+						} else if l > 12 && len(outcomes) < 40 {
+							outcomes[fmt.Sprint(names, kindsOf(sorted, kindOf))] = true
 						}
-					}
-					p := l - 1
-					for p >= 0 {
-						idx[p]++
-						if idx[p] < len(nodes) {
-							break
-						}
-						idx[p] = 0
-						p--
-					}
-					if p < 0 {
-						break
 					}
 				}
-			}
+			})
 			for o := range outcomes {
 				r.Outcomes[o] = 1
 			}
@@ -234,18 +308,36 @@ func kindsOf(ns []*gorums.RawNode, m map[*gorums.RawNode]nodeKind) string {
 
 func init() {
 	register(&Check{ID: "C19",
-		Rule: "small-scope enumeration on the real sorter: 8 node kinds (id in {1,2} x port in {1,2} x last error nil/set, built through the public constructors) ; every slice of length 0..4 (quick) / 0..5 (thorough) x every key sequence of length 1..3 over {ID, Port, LastNodeError}; plus the strict-weak-ordering axioms of each key on all pairs and triples; states = distinct input slices, an outcome is a distinct (key sequence, sorted slice) for slices of length <= 2",
+		Rule: "enumeration on the real sorter over 8 node kinds (id in {1,2} x port in {1,2} x last error nil/set, built through the public constructors): (a) every slice of length 0..4 (quick) / 0..5 (thorough) x every key sequence of length 1..3 over {ID, Port, LastNodeError}; (b) beyond the size thresholds of the library sort (12, 50): every slice of length 13 (thorough: 13 and 14) over the 3-kind alphabet {1:1, 1:2!, 2:2}, which has a tie under every key whose members differ under the other keys, x one two-key sequence per first key (thorough: every key sequence of length 1..3); (c) every pattern of period 1..3 over the 8 kinds repeated to lengths 13, 24, 51, 64 x every key sequence of length 1..3; plus the strict-weak-ordering axioms of each key on all pairs and triples; oracle: the result is a permutation of the input and adjacent elements are in lexicographic order of the reference key values; states = distinct input slices",
 		Gen: func(tier string) []Instance {
 			l := 4
 			if thorough(tier) {
 				l = 5
 			}
-			out := []Instance{{Name: "sorters/strict-weak-ordering-axioms", Seq: c19Seq(l, -1)}}
-			for k, n := range []string{"ID", "Port", "LastNodeError"} {
-				out = append(out, Instance{Name: fmt.Sprintf("sorters/first-key=%s/len<=%d", n, l), Seq: c19Seq(l, k)})
+			names := []string{"ID", "Port", "LastNodeError"}
+			out := []Instance{{Name: "sorters/strict-weak-ordering-axioms", Seq: c19Seq(sliceFamily{}, -1)}}
+			// kinds are indexed id-major, then port, then error: 1:1 = 0, 1:2! = 3, 2:2 = 6
+			alphabet, an := []int{0, 3, 6}, []string{"1:1", "1:2!", "2:2"}
+			for k, n := range names {
+				out = append(out, Instance{Name: fmt.Sprintf("sorters/first-key=%s/len<=%d", n, l), Seq: c19Seq(sliceFamily{maxKeys: 3, each: allSlices(l, 8)}, k)})
+				out = append(out, Instance{Name: fmt.Sprintf("sorters/first-key=%s/periodic/period<=3/len=13,24,51,64", n), Seq: c19Seq(sliceFamily{maxKeys: 3, each: periodic(3, 8, []int{13, 24, 51, 64})}, k)})
+				for a := 0; a < 3; a++ {
+					for b := 0; b < 3; b++ {
+						if thorough(tier) {
+							for _, bl := range []int{13, 14} {
+								out = append(out, Instance{Name: fmt.Sprintf("sorters/first-key=%s/alphabet={1:1,1:2!,2:2}/len=%d/starts=%s,%s/keys<=3", n, bl, an[a], an[b]),
+									Seq: c19Seq(sliceFamily{maxKeys: 3, each: overAlphabet(bl, alphabet, a, b)}, k)})
+							}
+							continue
+						}
+						second := (k + 1) % 2 // ID -> Port, Port -> ID, LastNodeError -> Port
+						out = append(out, Instance{Name: fmt.Sprintf("sorters/keys=%s,%s/alphabet={1:1,1:2!,2:2}/len=13/starts=%s,%s", n, names[second], an[a], an[b]),
+							Seq: c19Seq(sliceFamily{each: overAlphabet(13, alphabet, a, b), onlySeq: []int{k, second}}, k)})
+					}
+				}
 			}
 			return out
 		},
-		Assumptions: []string{"sort.Sort is deterministic for a given comparator; last errors are set through an accessor added by overlay"},
+		Assumptions: []string{"sort.Sort is deterministic for a given comparator; last errors are set through an accessor added by overlay", "slices longer than 5 are covered only by the two structured families, not by every slice"},
 	})
 }
